@@ -16,6 +16,7 @@ type caseCtx struct {
 	r    *rand.Rand
 	tier string
 	n    int
+	prop string
 }
 
 func (c *caseCtx) emit(format string, args ...interface{}) {
@@ -56,7 +57,7 @@ func runCases(args []string) {
 		panic(err)
 	}
 	defer f.Close()
-	c := &caseCtx{w: bufio.NewWriterSize(f, 1<<20), r: rand.New(rand.NewSource(seed)), tier: tier}
+	c := &caseCtx{w: bufio.NewWriterSize(f, 1<<20), r: rand.New(rand.NewSource(seed)), tier: tier, prop: prop}
 	fmt.Fprintf(c.w, "# prop=%s seed=%d tier=%s\n", prop, seed, tier)
 	gen(c)
 	c.w.Flush()
